@@ -187,10 +187,17 @@ def run(ctx):
                 continue
             ctx.cover('judged', 'yes')
             nonascii = any(ord(c) > 127 for c in doc)
+            # the option that names the encoding of byte VALUES inserted at render time has no say in how the
+            # template itself is decoded
+            value_encoding = rng.choice([None, None, None, 'latin-1', 'cp1251', 'utf-16-le', 'ascii'])
+            if value_encoding:
+                ctx.cover('value-encoding-option', value_encoding)
             for kind in ('bytes', 'file'):
                 problems = []
                 try:
                     cfg = {} if default == 'utf-8' else {'default_encoding': default}
+                    if value_encoding:
+                        cfg['encoding'] = value_encoding
                     if kind == 'bytes':
                         t = PageTemplate(raw, **cfg)
                     else:
@@ -200,7 +207,7 @@ def run(ctx):
                         t = PageTemplateFile(fn, **cfg)
                         t.cook_check()
                     got = t(n=5)
-                    want_t = PageTemplate(doc)
+                    want_t = PageTemplate(doc, **({'encoding': value_encoding} if value_encoding else {}))
                     want = want_t(n=5)
                     if got != want:
                         problems.append('render-differs-from-str')
@@ -229,14 +236,14 @@ def run(ctx):
                 except Exception as e:
                     problems = ['raised-' + type(e).__name__]
                 ctx.mon('compared')
-                ctx.case(key=cell + (kind,), nontrivial=nonascii,
+                ctx.case(key=cell + (kind, value_encoding is not None), nontrivial=nonascii,
                          sample={'bytes': raw[:120], 'cell': cell, 'class': kind, 'oracle': [oenc, oxml],
                                  'problems': problems} if i < 3 else None)
                 if problems:
                     key = classify(cell, problems, raw, meta_kind)
                     ctx.violation(key, '%s input, cell %r: %s; bytes %r' % (kind, cell, problems, raw[:100]),
                                   {'kind': kind, 'raw': raw.decode('latin-1'), 'default': default,
-                                   'oracle': [oenc, oxml], 'doc': doc})
+                                   'oracle': [oenc, oxml], 'doc': doc, 'value_encoding': value_encoding})
     finally:
         shutil.rmtree(tmpd, ignore_errors=True)
 
@@ -270,6 +277,8 @@ def replay(data):
     from chameleon import PageTemplate
     raw = data['raw'].encode('latin-1')
     cfg = {} if data['default'] == 'utf-8' else {'default_encoding': data['default']}
+    if data.get('value_encoding'):
+        cfg['encoding'] = data['value_encoding']
     try:
         t = PageTemplate(raw, **cfg)
         got = t(n=5)
